@@ -392,7 +392,8 @@ def fields(sc, t):
         width = max([disp_width(shown[p]) for p in pids] + [0]) if al else 0
         ffield = {}
         for p in pids:
-            ffield[p] = (shown[p].encode(), len(shown[p]), width, psep.encode())
+            # third element: what the padding subtracts from the width (display columns since the F9 repair)
+            ffield[p] = (shown[p].encode(), disp_width(shown[p]), width, psep.encode())
     dfun = (lambda ns: (fmt_dt(ns, off, fmt) + psep).encode()) if has_date else None
     return ffield, dfun, SEP_BYTES[sp]
 
